@@ -22,7 +22,7 @@ Open Scope Z_scope.
      24 <= |c|  /\  c[0..8) = k.id  /\  16 | |c| - 24  /\
      with mk = c[8..24), pt = IGE^-1 (Keys (k, mk, other s)) c[24..) :
      MessageKey (k, pt, other s) = mk  /\  32 <= |pt|  /\  d = the fields of pt  /\
-     0 <= d.len <= |d.body|  /\  4 | d.len  /\  |d.body| - d.len <= maxPadding *)
+     0 <= d.len <= |d.body|  /\  4 | d.len  /\  minPadding <= |d.body| - d.len <= maxPadding *)
 Theorem C05_accept_iff :
   forall (sha256 : list Z -> list Z) (aes_dec : list Z -> list Z -> list Z)
          (s : side) (k : authkey) (c : list Z) (d : dec),
